@@ -42,6 +42,7 @@ def CmpOp.code : CmpOp → Nat
 
 def Const.src : Const → String
   | .int i => toString i | .str s => "'" ++ s ++ "'" | .none => "None" | .true => "True" | .false => "False"
+  | .bytes s => "b'" ++ s ++ "'"
 
 def paren (need : Bool) (s : String) : String := if need then "(" ++ s ++ ")" else s
 
@@ -105,6 +106,14 @@ partial def srcIdx : Expr → String
   | .slice3 lo hi st =>
       let b (e : Expr) : String := match e with | .const .none => "" | e => src 2 e
       b lo ++ ":" ++ b hi ++ ":" ++ src 2 st
+  -- an extended slice `a[i, lo:hi:st, …]` (ast.ExtSlice): the tuple of its dimensions, written without parentheses
+  | .tuple es =>
+      let l := es.toList
+      if l.any (fun e => match e with | .slice3 _ _ _ => true | _ => false) then
+        match l with
+        | [e] => srcIdx e ++ ","
+        | l => ", ".intercalate (l.map fun e => match e with | .slice3 _ _ _ => srcIdx e | e => src 2 e)
+      else src 0 (.tuple es)
   | i => src 0 i
 /-- parameter list with defaults: the defaults belong to the LAST positional parameters -/
 partial def srcParams (sg : Sig) (ds : Exprs) (kds : KWs) : String :=
@@ -282,7 +291,7 @@ def countLog (v : String) : Nat :=
   | [] => 0
 
 /-- emit one program.  family = distribution key -/
-def mkCase (family : String) (ss : List Stmt) (bad : Nat) : Case :=
+def mkCase (family : String) (ss : List Stmt) (bad : Nat) (forceNt : Bool := false) : Case :=
   let (sv, unspecified) := specRun ss bad
   let mv := modelRun ss bad
   let lst := listing (compProg ss)
@@ -291,7 +300,7 @@ def mkCase (family : String) (ss : List Stmt) (bad : Nat) : Case :=
   let nev := countLog sv
   -- the known finding C01-K01 (dict display with a non-str key) shows as KeyError on the model side only;
   -- any OTHER difference between model and reference is left untagged and surfaces as a VIOLATION
-  let tags := (if nev ≥ 2 then ["nt"] else []) ++ (if !unspecified && mv != sv && mv.endsWith "X:KeyError" then ["kf=C01-K01"] else [])
+  let tags := (if nev ≥ 2 || forceNt then ["nt"] else []) ++ (if !unspecified && mv != sv && mv.endsWith "X:KeyError" then ["kf=C01-K01"] else [])
     ++ (if unspecified then ["unspec"] else [])
     ++ (if !unspecified && sv.endsWith "X:-" == false then ["exc"] else [])
   if unspecified then
@@ -762,6 +771,23 @@ def genSlice3 (_tier : String) (seed : Nat) : IO Unit := do
         let e := Expr.subscript (.const (.str "abcdef")) (.slice3 (lit 1 lo) (lit 2 hi) (lit 3 st))
         IO.println (mkCase "X2" (rAssign e) 0).line
 
+/-- X3: extended slices `a[i, lo:hi:st]` (ast.ExtSlice: the dimensions left to right, BUILD_SLICE per slice
+dimension, BUILD_TUPLE) in load, store, augmented and del context -/
+def genExtSlice (_tier : String) (seed : Nat) : IO Unit := do
+  let none_ : Expr := .const .none
+  let dims : List Expr := [A, .slice3 A A A, .slice3 none_ A none_, .slice3 A none_ A, .binop .sub A A]
+  let idxs : List Expr :=
+    (dims.flatMap fun d1 => dims.map fun d2 => Expr.tuple (es [d1, d2]))
+    ++ [.tuple (es [.slice3 A A A]), .tuple (es [A, .slice3 A A A, A]), .tuple (es [.slice3 A A A, .slice3 A A A, .slice3 none_ none_ A]),
+        .tuple (es [.boolop true A (es [A]), .slice3 (.ifexp A A A) A A])]
+  for ix in idxs do
+    emitAll "X3" (rAssign (.subscript (nm "c1") ix)) seed 1 true
+    emitAll "X3" (rAssign (.subscript A ix)) seed 1 false
+    emitAll "X3" [.assign (.subscr (nm "c2") ix) (tgs [.name "x"]) A] seed 1 true
+    emitAll "X3" [.aug (.subscr (nm "c1") ix) .add A] seed 1 true
+    emitAll "X3" [.del (.ofList [.subscr (nm "c2") ix])] seed 0 true
+    emitAll "X3" (rAssign (.subscript (.tuple (es [A, A, A])) ix)) seed 0 false
+
 /-- DL: `del` -/
 def genDel (_tier : String) (seed : Nat) : IO Unit := do
   let ds : List DelTarget :=
@@ -773,6 +799,146 @@ def genDel (_tier : String) (seed : Nat) : IO Unit := do
     for d2 in ds do
       emitAll "DL" [.del (.ofList [d, d2])] seed 0 false
       emitAll "DL" [.del (.ofList [d]), .assign (.name "r") .nil (.tuple (es [A, nm "y"])), .del (.ofList [d2])] seed 0 false
+
+
+/-! ## third round: the VALUE of comparison forms over operands derived from one object
+(identity `is` / `is not`, `==` / `!=`, `in` / `not in`) -/
+
+def ci (i : Int) : Expr := if i < 0 then .unop .usub (.const (.int (-i))) else .const (.int i)
+
+def bnd : Option Int → Expr
+  | none => .const .none
+  | some i => ci i
+
+/-- `t[a:b]`; an omitted bound is written `None` (same byte code as the empty bound) -/
+def sl (t : Expr) (a b : Option Int) : Expr := .slice2 t (bnd a) (bnd b)
+/-- `t[a:b:s]` -/
+def sl3 (t : Expr) (a b : Option Int) (s : Int) : Expr := .subscript t (.slice3 (bnd a) (bnd b) (ci s))
+
+inductive IKind | tuple | bytes | list | str
+deriving DecidableEq, Inhabited
+
+/-- the object of kind `k` with `n` elements (a display / literal) -/
+def IKind.lit (k : IKind) (n : Nat) : Expr :=
+  match k with
+  | .tuple => .tuple (es ([ci 1, ci 2, ci 3].take n))
+  | .list => .list (es ([ci 1, ci 2, ci 3].take n))
+  | .bytes => .const (.bytes ("abc".take n).toString)
+  | .str => .const (.str ("abc".take n).toString)
+
+/-- the empty object of the kind, written out -/
+def IKind.empty (k : IKind) : Expr := k.lit 0
+
+def sN (n : Nat) : Option Int := some (Int.ofNat n)
+
+def allSlices (t : Expr) (n : Nat) : List Expr :=
+  (List.range (n + 1)).flatMap fun a => (List.range (n + 1)).map fun b => sl t (sN a) (sN b)
+
+def tE : Expr := nm "t"
+def uE : Expr := nm "u"
+
+/-- `t = <object>; u = t; r = e` -/
+def iProg (k : IKind) (n : Nat) (e : Expr) : List Stmt :=
+  [.assign (.name "t") .nil (k.lit n), .assign (.name "u") .nil tE, .assign (.name "r") .nil e]
+
+/-- the four value comparisons of one operand pair -/
+def cmp4 (x y : Expr) : Expr :=
+  .tuple (es [.compare x (.one .is y), .compare x (.one .isNot y), .compare x (.one .eq y), .compare x (.one .ne y)])
+
+def emitI (family : String) (ss : List Stmt) : IO Unit :=
+  IO.println (mkCase family ss 0 true).line
+
+/-- ways to derive a value from the object bound to `t` (alias `u`) without going through a slice only:
+aliasing, whole and partial slices, slices of slices, stepped slices, concatenation, repetition,
+a fresh display, star-args, argument passing, container round trip, short-circuit / conditional results -/
+def derivations (k : IKind) (n : Nat) : List Expr :=
+  let t := tE
+  [t, uE, sl t none none, sl t (some 0) (sN n), sl t none (some 1), sl t (some 1) none,
+   .binop .add t (sl t (some 0) (some 0)), .binop .add (sl t (some 0) (some 0)) t,
+   .binop .mul t (ci 1), .binop .mul t (ci 0), .binop .add (sl t (some 0) (some 1)) (sl t (some 1) none),
+   sl3 t none none 1, sl3 t none none 2, sl3 t none none (-1), sl3 t (some 0) (some 1) 1,
+   sl (sl t (some 0) (some 2)) (some 0) (some 1), sl (sl t (some 1) none) (some 1) none,
+   sl (sl t (some 1) none) (some 0) (some 0), sl t (sN n) (sN n), sl t (some 0) (some 0),
+   k.lit n, k.empty,
+   .callx (.lambda { vararg := some "a" } .nil .nil (nm "a")) .nil .nil (.some t) .none,
+   .call (.lambda { pos := ["a"] } .nil .nil (nm "a")) (es [t]),
+   .subscript (.tuple (es [t])) (ci 0), .subscript (.list (es [t, uE])) (ci 1),
+   .ifexp (ci 1) t uE, .boolop true t (es [uE]), .boolop false t (es [uE])]
+
+def genIdentity (tier : String) (_seed : Nat) : IO Unit := do
+  let thorough := tier == "thorough"
+  let kinds : List IKind := [.tuple, .bytes, .list, .str]
+  -- I1: both operands slices of one object: all (start, stop) pairs over lengths 0..3
+  for k in kinds do
+    for n in [0, 1, 2, 3] do
+      let ys := [tE, uE, sl tE none none] ++ allSlices tE n
+      for x in allSlices tE n do
+        for y in ys do
+          emitI "I1" (iProg k n (cmp4 x y))
+      -- negative and out-of-range bounds
+      for (a, b) in [(some (-1), none), (none, some (-1)), (some (-5), some 9), (some 2, some 1), (some 9, none)] do
+        for y in [tE, sl tE (some 0) (some (Int.ofNat n - 1)), sl tE (some (Int.ofNat n - 1)) (sN n)] do
+          emitI "I1" (iProg k n (cmp4 (sl tE a b) y))
+          emitI "I1" (iProg k n (cmp4 y (sl tE a b)))
+  -- I2: every comparison position (chained, under not / and / or / conditional expression)
+  for (k, n) in [(IKind.tuple, 3), (.tuple, 2), (.bytes, 3), (.bytes, 1), (.list, 2), (.str, 2)] do
+    let t := tE
+    let xs := [sl t (some 0) (some 1), sl t (some 0) (some 2), sl t (some 0) (sN n), sl t (some 1) (sN n),
+               sl t none none, sl t (some 0) (some 0), sl t (sN n) (sN n), t]
+    let ys := [t, uE, sl t (some 0) (some 2), sl t (some 1) (sN n), sl t none (some 0)]
+    let zs := [t, sl t (some 0) (some 2)]
+    for x in (if thorough then xs else xs.take 6) do
+      for y in (if thorough then ys else ys.take 4) do
+        for op in [CmpOp.is, .isNot, .eq] do
+          for z in zs do
+            for op2 in [CmpOp.is, .eq] do
+              emitI "I2" (iProg k n (.compare x (.more op y (.one op2 z))))
+        emitI "I2" (iProg k n (.compare x (.more .is y (.more .is uE (.one .isNot (sl t (some 0) (some 1)))))))
+        for op in [CmpOp.is, .isNot, .eq, .in_] do
+          let c : Expr := if op == .in_ then .compare x (.one op (.tuple (es [y, ci 5]))) else .compare x (.one op y)
+          emitI "I2" (iProg k n (.unop .not c))
+          emitI "I2" (iProg k n (.boolop false c (es [.const (.str "a")])))
+          emitI "I2" (iProg k n (.boolop true c (es [.const (.str "b")])))
+          emitI "I2" (iProg k n (.boolop false (.const (.str "c")) (es [c, .compare y (.one op x)])))
+          emitI "I2" (iProg k n (.ifexp c (ci 1) (ci 0)))
+          emitI "I2" (iProg k n (.tuple (es [c, .compare x (.one .notIn (.list (es [y])))])))
+  -- I3: both operands derived from one object by aliasing / slicing / concatenation / repetition / star-args …
+  for (k, ns) in [(IKind.tuple, [0, 1, 2, 3]), (.bytes, [0, 1, 2, 3]), (.list, [0, 2]), (.str, [0, 2])] do
+    for n in ns do
+      let ds := derivations k n
+      for x in ds do
+        for y in ds do
+          emitI "I3" (iProg k n (cmp4 x y))
+  -- I4: inside a function: the `*args` tuple (a fresh copy per call), parameters as locals
+  for n in [0, 1, 2, 3] do
+    let a := nm "a"
+    let xs := [a, sl a none none] ++ allSlices a n
+    let ys := [a, sl a none none, sl a (some 0) (sN n), sl a (some 1) none, sl a none (some 1), sl a (some 0) (some 0)]
+    for x in xs do
+      for y in ys do
+        emitI "I4" [.funcdef "k" { vararg := some "a" } .nil .nil (cmp4 x y),
+                    .assign (.name "t") .nil (IKind.tuple.lit n),
+                    .assign (.name "r") .nil (.callx (nm "k") .nil .nil (.some tE) .none)]
+    -- the same function called twice: two `*args` tuples
+    emitI "I4" [.funcdef "k" { vararg := some "a" } .nil .nil a,
+                .assign (.name "t") .nil (IKind.tuple.lit n),
+                .assign (.name "r") .nil (cmp4 (.callx (nm "k") .nil .nil (.some tE) .none) (.callx (nm "k") .nil .nil (.some tE) .none))]
+    emitI "I4" [.funcdef "k" { pos := ["a", "b"] } .nil .nil (cmp4 a (nm "b")),
+                .assign (.name "t") .nil (IKind.tuple.lit n),
+                .assign (.name "r") .nil (.tuple (es [.call (nm "k") (es [tE, tE]), .call (nm "k") (es [tE, sl tE none none]),
+                                                     .call (nm "k") (es [sl tE (some 0) (some 1), tE])]))]
+  -- I5: ints, strs, singletons (values of a comparable Go type: identity is equality of the value)
+  let scal : List Expr :=
+    [nm "x", nm "y", ci 5, ci 7, .binop .add (ci 2) (ci 3), .binop .sub (ci 12) (ci 5), .binop .mul (nm "x") (ci 1),
+     ci 0, ci 1, .const .true, .const .false, .const .none, nm "z", .const (.str "ab"), .const (.str "a"),
+     .binop .add (.const (.str "a")) (.const (.str "b")), sl (.const (.str "abc")) (some 0) (some 2),
+     .binop .mul (nm "z") (ci 1), .const (.str ""), sl (nm "z") (some 0) (some 0), nm "c1", nm "c2", nm "o1", nm "f", nm "g",
+     .tuple .nil, .list .nil, .dict .nil,
+     .const (.bytes ""), .binop .mul (.const (.bytes "a")) (ci 0), .binop .mul (.tuple (es [ci 1])) (ci 0), .const (.bytes "ab")]
+  for x in scal do
+    for y in scal do
+      emitI "I5" (rAssign (cmp4 x y))
+      emitI "I5" [.assign (.name "u") (tgs [.name "v"]) x, .assign (.name "r") .nil (.tuple (es [cmp4 (nm "u") (nm "v"), cmp4 (nm "u") y]))]
 
 /-! ## seeded random deeper trees -/
 
@@ -956,5 +1122,7 @@ def genMain (tier : String) (seed : Nat) : IO Unit := do
   genSlice3 tier seed
   genDel tier seed
   genRandom2 tier seed
+  genIdentity tier seed
+  genExtSlice tier seed
 
 end GPy.C01
